@@ -196,7 +196,6 @@ fn step(c: &mut Case, t: &[&str]) -> (usize, String) {
     // ---------------------------------------------------------------- single sync/try forms
     "ts" | "tr" | "sd" | "rv" | "rt" | "cs" | "ob" => {
       let h = num(t[1]);
-      let closed_called = c.hs.get(&h).map(|e| e.closed_called).unwrap_or(false);
       let Some(hd) = c.live(h) else { return (2, "nohandle".into()) };
       let hp = hd as *const H;
       let hd = unsafe { &*hp };
@@ -206,7 +205,7 @@ fn step(c: &mut Case, t: &[&str]) -> (usize, String) {
         ("tr", H::Rx(rx)) => show_try_recv(rx.try_recv()),
         ("tr", H::ARx(rx)) => show_try_recv(rx.try_recv()),
         ("sd", H::Tx(tx)) => {
-          if !closed_called && !tx.is_closed() && tx.is_full() {
+          if !tx.is_closed() && tx.is_full() {
             "WOULDBLOCK".into()
           } else {
             match tx.send(c.fresh()) {
@@ -216,7 +215,7 @@ fn step(c: &mut Case, t: &[&str]) -> (usize, String) {
           }
         }
         ("rv", H::Rx(rx)) => {
-          if !closed_called && rx.is_empty() && !rx.is_closed() {
+          if rx.is_empty() && !rx.is_closed() {
             "WOULDBLOCK".into()
           } else {
             match rx.recv() {
@@ -294,7 +293,6 @@ fn step(c: &mut Case, t: &[&str]) -> (usize, String) {
     // ---------------------------------------------------------------- batch try/blocking forms
     "tsb" | "tsm" | "sb" | "sbm" | "trb" | "trm" | "rb" | "rbm" => {
       let (h, n) = (num(t[1]), num(t[2]));
-      let closed_called = c.hs.get(&h).map(|e| e.closed_called).unwrap_or(false);
       let Some(hd) = c.live(h) else { return (3, "nohandle".into()) };
       let hp = hd as *const H;
       let hd = unsafe { &*hp };
@@ -316,7 +314,7 @@ fn step(c: &mut Case, t: &[&str]) -> (usize, String) {
           show_mut(r, v)
         }
         ("sb", H::Tx(tx)) | ("sbm", H::Tx(tx)) => {
-          if !closed_called && !tx.is_closed() && n > tx.capacity() - tx.len() {
+          if !tx.is_closed() && n > tx.capacity() - tx.len() {
             "WOULDBLOCK".into()
           } else if op == "sb" {
             match tx.send_batch(c.fresh_n(n)) {
@@ -348,7 +346,7 @@ fn step(c: &mut Case, t: &[&str]) -> (usize, String) {
           }
         }
         ("rb", H::Rx(rx)) | ("rbm", H::Rx(rx)) => {
-          if !closed_called && n > 0 && rx.is_empty() && !rx.is_closed() {
+          if n > 0 && rx.is_empty() && !rx.is_closed() {
             "WOULDBLOCK".into()
           } else if op == "rb" {
             match rx.recv_batch(n) {
